@@ -101,6 +101,57 @@ pub fn opt_transform(parent_node: &Node, tag_name: &str) -> Result<Option<Transf
     }
 }
 
+/// Determines the maximum nesting depth of the elements in an XML document.
+///
+/// The XML parser works recursively, so XML data with extremely deep nesting
+/// must be rejected before parsing to avoid running out of stack memory.
+pub fn max_nesting_depth(xml: &str) -> usize {
+    let bytes = xml.as_bytes();
+    let mut depth: usize = 0;
+    let mut max_depth: usize = 0;
+    let mut i = 0;
+    while i < bytes.len() {
+        if bytes[i] != b'<' {
+            i += 1;
+            continue;
+        }
+        let rest = &xml[i..];
+        let skip_to = |end: &str| rest.find(end).map(|p| i + p + end.len());
+        if rest.starts_with("<![CDATA[") {
+            i = skip_to("]]>").unwrap_or(bytes.len());
+        } else if rest.starts_with("<!--") {
+            i = skip_to("-->").unwrap_or(bytes.len());
+        } else if rest.starts_with("<?") {
+            i = skip_to("?>").unwrap_or(bytes.len());
+        } else if rest.starts_with("</") {
+            depth = depth.saturating_sub(1);
+            i = skip_to(">").unwrap_or(bytes.len());
+        } else if rest.starts_with("<!") {
+            i = skip_to(">").unwrap_or(bytes.len());
+        } else {
+            // Start tag: find its end, quoted attribute values may contain '>'
+            let mut quote = None;
+            let mut j = i + 1;
+            while j < bytes.len() {
+                match (quote, bytes[j]) {
+                    (None, b'"') | (None, b'\'') => quote = Some(bytes[j]),
+                    (Some(q), c) if q == c => quote = None,
+                    (None, b'>') => break,
+                    _ => {}
+                }
+                j += 1;
+            }
+            let self_closing = j > i && j < bytes.len() && bytes[j - 1] == b'/';
+            if !self_closing {
+                depth += 1;
+                max_depth = max_depth.max(depth);
+            }
+            i = j + 1;
+        }
+    }
+    max_depth
+}
+
 pub fn gen_string<T: Display>(tag_name: &str, value: &T) -> String {
     // The end marker of a CDATA section cannot be part of its content,
     // it needs to be split and distributed over two sections.
